@@ -390,13 +390,22 @@ struct FnEmitter {
                     if (R->isPointerType() || R->isReferenceType()) { R = R->getPointeeType().getCanonicalType(); continue; }
                     break;
                 }
-                if (auto *RD = R->getAsCXXRecordDecl()) {
-                    // declared (at any depth: member classes, local lambdas) inside namespace tbb::detail
+                if (auto *RD = R->getAsTagDecl()) {
+                    // a class or enumeration declared (at any depth: member classes, local lambdas) inside namespace tbb::detail
                     for (const DeclContext *DC = RD->getDeclContext(); DC; DC = DC->getParent())
                         if (auto *NS = dyn_cast<NamespaceDecl>(DC))
                             if (NS->getName() == "detail")
                                 if (auto *PN = dyn_cast_or_null<NamespaceDecl>(NS->getParent()))
                                     if (PN->getName() == "tbb") return 2;
+                }
+                // a helper template of the library's internal utility namespace (tbb::detail::d0: spin_wait_*, atomic_do_once ...)
+                // given a built-in scalar: the library itself chose the type
+                if (PD && (R->isScalarType() || R->isVoidType())) {
+                    for (const DeclContext *DC = PD->getDeclContext(); DC; DC = DC->getParent())
+                        if (auto *NS = dyn_cast<NamespaceDecl>(DC))
+                            if (NS->getName() == "d0")
+                                if (auto *PN = dyn_cast_or_null<NamespaceDecl>(NS->getParent()))
+                                    if (PN->getName() == "detail") return 2;
                 }
                 return 1;
             }
